@@ -215,6 +215,25 @@ def run(rep, repo, tier):
                                    for n, l in converted.items()}
   rep.sample({"converted": rep.extra["layers_converted"]})
 
+  # conversion of a layer must not depend on the layers before it: the whole
+  # model at once (in both orders) gives every layer what it gets alone
+  for order, lbl in ((list(src), "model order"),
+                     (list(reversed(src)), "reversed order")):
+    try:
+      jm_all, _, _ = run_mq(repo, _copy.deepcopy(order), _copy.deepcopy(cfg))
+    except PyRaise as e:
+      # a raising arm is reported by R6 above
+      continue
+    together = by_name(jm_all)
+    for name, alone in sorted(converted.items()):
+      got = together.get(name)
+      rep.check(got is not None and norm(got) == norm(alone), "R1", unit,
+                "conversion-depends-on-other-layers:" + alone["class_name"],
+                "layer %s is converted differently inside the whole model "
+                "(%s) than alone: %r" % (
+                    name, lbl, _diff(alone, got) if got is not None
+                    else "missing"), loc=loc, instance="%s/%s" % (name, lbl))
+
   def expect(name, cls, **keys):
     l = converted.get(name)
     if l is None:
